@@ -38,6 +38,10 @@ func MonitorsFor(prop string) []Monitor {
 		return []Monitor{&monC20{}}
 	case "C15":
 		return []Monitor{&monC15{}}
+	case "C18":
+		// app world: the order / registry / stream models run on behalf of C18 over boundary-biased
+		// identifiers; store world: monC18
+		return []Monitor{&monC18{}, &monC03{}, &monC07{}, &monC08{}, &monC09{}, &monC11{}}
 	case "C17":
 		return []Monitor{&monC17{}}
 	}
